@@ -166,22 +166,7 @@ fn is_class(n: usize) -> bool {
 	n == 320 || n == 352 || n == 416 || n == 417 || n == 418 || n == 420 || n == 584 || n == 700 || n == 701 || n == 760
 }
 
-// @verif property=C07,C08,C05 tier=quick mem=16 timeout=2400
-// @encodes peppi::io::slippi::de::game_start, if_more, player_bytes on a Game Start block of every length 320..=768
-// @symbolic 5500 block length and every non-structural byte
-// @bound lengths 320..=768 (shorter: c06_nopanic_start_short); no occupied ports; strings empty; language byte 0
-// @assume structural bytes assigned: all port types "empty", UCF words 0, name fields start with NUL, language 0, match id empty
-// @assume oracle: the ten length classes of spec/start_layout.json; a block is accepted iff its length is one of them or exceeds the newest (extra trailing bytes of a newer version are ignored)
-// @stub encoding_rs::Encoding::decode_without_bom_handling_and_without_replacement = returns ""
-// @stub core::str::from_utf8 = identity on the (empty) test strings
-// @stub alloc::fmt::format = returns an empty String
-// @cbmc --max-field-sensitivity-array-size 1024
-#[kani::proof]
-#[kani::unwind(53)]
-#[kani::stub(alloc::fmt::format, format_stub)]
-#[kani::stub(encoding_rs::Encoding::decode_without_bom_handling_and_without_replacement, decoder_ok)]
-#[kani::stub(core::str::from_utf8, utf8_ascii_stub)]
-fn c07_start_cut_any() {
+fn start_block_of_len(n: usize) {
 	let mut b: [u8; 768] = kani::any();
 	let mut p = 0;
 	while p < 6 {
@@ -203,22 +188,114 @@ fn c07_start_cut_any() {
 	}
 	b[700] = 0;
 	b[701] = 0;
-	let n: usize = kani::any();
-	kani::assume(n >= 320 && n <= 768);
 	let mut r: &[u8] = &b[..n];
 	let res = game_start(&mut r);
-	// a block cut inside an optional tail is rejected, never parsed as the next shorter layout
+	// a block cut inside an optional tail is rejected, never parsed as the next shorter layout;
+	// bytes beyond the newest layout are ignored
 	assert!(res.is_ok() == (is_class(n) || n > 760));
 	if let Ok(s) = &res {
 		assert!(s.bytes.0.len() == n);
 		assert!(s.players.len() == 0);
 		assert!(s.is_pal.is_some() == (n >= 417));
+		assert!(s.is_frozen_ps.is_some() == (n >= 418));
 		assert!(s.scene.is_some() == (n >= 420));
 		assert!(s.language.is_some() == (n >= 701));
 		assert!(s.r#match.is_some() == (n >= 760));
 	}
-	kani::cover!(res.is_ok() && n == 768, "longer than the newest layout");
-	kani::cover!(res.is_err() && n == 759, "one byte short of 3.14");
-	kani::cover!(res.is_err() && n == 419, "cut inside the scene pair");
 	forget(res);
 }
+
+// @verif property=C07,C08,C05 tier=quick mem=16 timeout=2400
+// @encodes peppi::io::slippi::de::game_start, if_more, player_bytes on Game Start blocks of lengths 351, 352, 419, 420
+// @symbolic 20000 every non-structural byte of each block
+// @bound block lengths 351, 352, 419, 420 (concrete: a symbolic length makes every read fallible and did not finish in 16 min); no occupied ports; strings empty; language byte 0
+// @assume structural bytes assigned: all port types "empty", UCF words 0, name fields start with NUL, language 0, match id empty
+// @assume oracle: the ten length classes of spec/start_layout.json; a block is accepted iff its length is one of them or exceeds the newest (extra trailing bytes of a newer version are ignored)
+// @stub encoding_rs::Encoding::decode_without_bom_handling_and_without_replacement = returns ""
+// @stub core::str::from_utf8 = identity on the (empty) test strings
+// @stub alloc::fmt::format = returns an empty String
+// @cbmc --max-field-sensitivity-array-size 1024
+#[kani::proof]
+#[kani::unwind(53)]
+#[kani::stub(alloc::fmt::format, format_stub)]
+#[kani::stub(encoding_rs::Encoding::decode_without_bom_handling_and_without_replacement, decoder_ok)]
+#[kani::stub(core::str::from_utf8, utf8_ascii_stub)]
+fn c07_start_cut_a() {
+	start_block_of_len(351);
+	start_block_of_len(352);
+	start_block_of_len(419);
+	start_block_of_len(420);
+	kani::cover!(true, "reached");
+}
+
+// @verif property=C07,C08,C05 tier=thorough mem=16 timeout=2400
+// @encodes peppi::io::slippi::de::game_start, if_more, player_bytes on Game Start blocks of lengths 320, 415, 416, 417, 418
+// @symbolic 25000 every non-structural byte of each block
+// @bound block lengths 320, 415, 416, 417, 418 (concrete: a symbolic length makes every read fallible and did not finish in 16 min); no occupied ports; strings empty; language byte 0
+// @assume structural bytes assigned: all port types "empty", UCF words 0, name fields start with NUL, language 0, match id empty
+// @assume oracle: the ten length classes of spec/start_layout.json; a block is accepted iff its length is one of them or exceeds the newest (extra trailing bytes of a newer version are ignored)
+// @stub encoding_rs::Encoding::decode_without_bom_handling_and_without_replacement = returns ""
+// @stub core::str::from_utf8 = identity on the (empty) test strings
+// @stub alloc::fmt::format = returns an empty String
+// @cbmc --max-field-sensitivity-array-size 1024
+#[kani::proof]
+#[kani::unwind(53)]
+#[kani::stub(alloc::fmt::format, format_stub)]
+#[kani::stub(encoding_rs::Encoding::decode_without_bom_handling_and_without_replacement, decoder_ok)]
+#[kani::stub(core::str::from_utf8, utf8_ascii_stub)]
+fn c07_start_cut_b() {
+	start_block_of_len(320);
+	start_block_of_len(415);
+	start_block_of_len(416);
+	start_block_of_len(417);
+	start_block_of_len(418);
+	kani::cover!(true, "reached");
+}
+
+// @verif property=C07,C08,C05 tier=thorough mem=16 timeout=2400
+// @encodes peppi::io::slippi::de::game_start, if_more, player_bytes on Game Start blocks of lengths 583, 584, 699, 700, 701
+// @symbolic 25000 every non-structural byte of each block
+// @bound block lengths 583, 584, 699, 700, 701 (concrete: a symbolic length makes every read fallible and did not finish in 16 min); no occupied ports; strings empty; language byte 0
+// @assume structural bytes assigned: all port types "empty", UCF words 0, name fields start with NUL, language 0, match id empty
+// @assume oracle: the ten length classes of spec/start_layout.json; a block is accepted iff its length is one of them or exceeds the newest (extra trailing bytes of a newer version are ignored)
+// @stub encoding_rs::Encoding::decode_without_bom_handling_and_without_replacement = returns ""
+// @stub core::str::from_utf8 = identity on the (empty) test strings
+// @stub alloc::fmt::format = returns an empty String
+// @cbmc --max-field-sensitivity-array-size 1024
+#[kani::proof]
+#[kani::unwind(53)]
+#[kani::stub(alloc::fmt::format, format_stub)]
+#[kani::stub(encoding_rs::Encoding::decode_without_bom_handling_and_without_replacement, decoder_ok)]
+#[kani::stub(core::str::from_utf8, utf8_ascii_stub)]
+fn c07_start_cut_c() {
+	start_block_of_len(583);
+	start_block_of_len(584);
+	start_block_of_len(699);
+	start_block_of_len(700);
+	start_block_of_len(701);
+	kani::cover!(true, "reached");
+}
+
+// @verif property=C07,C08,C05 tier=thorough mem=16 timeout=2400
+// @encodes peppi::io::slippi::de::game_start, if_more, player_bytes on Game Start blocks of lengths 759, 760, 761, 768
+// @symbolic 20000 every non-structural byte of each block
+// @bound block lengths 759, 760, 761, 768 (concrete: a symbolic length makes every read fallible and did not finish in 16 min); no occupied ports; strings empty; language byte 0
+// @assume structural bytes assigned: all port types "empty", UCF words 0, name fields start with NUL, language 0, match id empty
+// @assume oracle: the ten length classes of spec/start_layout.json; a block is accepted iff its length is one of them or exceeds the newest (extra trailing bytes of a newer version are ignored)
+// @stub encoding_rs::Encoding::decode_without_bom_handling_and_without_replacement = returns ""
+// @stub core::str::from_utf8 = identity on the (empty) test strings
+// @stub alloc::fmt::format = returns an empty String
+// @cbmc --max-field-sensitivity-array-size 1024
+#[kani::proof]
+#[kani::unwind(53)]
+#[kani::stub(alloc::fmt::format, format_stub)]
+#[kani::stub(encoding_rs::Encoding::decode_without_bom_handling_and_without_replacement, decoder_ok)]
+#[kani::stub(core::str::from_utf8, utf8_ascii_stub)]
+fn c07_start_cut_d() {
+	start_block_of_len(759);
+	start_block_of_len(760);
+	start_block_of_len(761);
+	start_block_of_len(768);
+	kani::cover!(true, "reached");
+}
+
